@@ -87,6 +87,10 @@ STUBS = {
     'operator==|std::__detail::_Node_iterator_base<std::pair<std::string, std::unordered_map<std::string, Pistache::Http::Cookie>>, true>,std::__detail::_Node_iterator_base<std::pair<std::string, std::unordered_map<std::string, Pistache::Http::Cookie>>, true>': {'expr': '(($0) == ($1))'},
     'ctor:std::unordered_map<std::string, Pistache::Http::Cookie>/0': {'expr': '((struct vs_inner){0})'},
     'std::unordered_map<std::string, Pistache::Http::Cookie>::insert': 'vs_inner_insert', 'std::unordered_map<std::string, std::unordered_map<std::string, Pistache::Http::Cookie>>::insert': 'vs_outer_insert',
+    # other spellings of the same insertions (so that a rewrite is decided, not a tool error): emplace / try_emplace keep an existing entry like insert
+    'std::unordered_map<std::string, Pistache::Http::Cookie>::emplace': {'expr': 'vs_inner_insert($this, (struct vs_kv){ ($0).src, ($0).size, (const void *)&($1) })'}, 'std::unordered_map<std::string, Pistache::Http::Cookie>::try_emplace': {'expr': 'vs_inner_insert($this, (struct vs_kv){ ($0).src, ($0).size, (const void *)&($1) })'},
+    'std::unordered_map<std::string, std::unordered_map<std::string, Pistache::Http::Cookie>>::emplace': {'expr': 'vs_outer_insert($this, (struct vs_kv){ ($0).src, ($0).size, (const void *)&($1) })'}, 'std::unordered_map<std::string, std::unordered_map<std::string, Pistache::Http::Cookie>>::try_emplace': {'expr': 'vs_outer_insert($this, (struct vs_kv){ ($0).src, ($0).size, (const void *)&($1) })'},
+    'move': {'expr': '($0)'},
     'make_pair': {'expr': '((struct vs_kv){ ($0).src, ($0).size, (const void *)&($1) })'},
     'operator->|std::__detail::_Node_iterator<std::pair<std::string, std::unordered_map<std::string, Pistache::Http::Cookie>>, false, true>': {'expr': '($0)'},
     'field:std::pair<std::string, std::unordered_map<std::string, Pistache::Http::Cookie>>::second': '(*($))',
